@@ -114,6 +114,7 @@ var c20Fragments = [][]string{
 	{"SELECT", "'🙂;；ｘ\uffee\U0010ffff'", "FROM", "t", ";"}, // characters beyond the private key codes of the line editor (emoji, fullwidth forms, the last code point)
 	{"SELECT", "'\ud7ff\ue000;'", ";"},                     // the code points right below and above the surrogate range
 	{"SELECT", "'a;^ b^^c'", ";"},
+	{";"}, // an empty statement: the statements around it still arrive, whole and once
 }
 
 // render types one statement with the given gap choices (bit i set = line break in gap i).
@@ -198,6 +199,9 @@ func runC20(env *lib.Env, rep *lib.Report) {
 			want = wantOverride
 		}
 		got, err, pan := c20Submit(input, chunk)
+		// an empty statement (a terminator with nothing in front of it) carries no text: whether the console hands
+		// it on or leaves it out is not part of the property; everything around it is
+		want, got = c20DropEmpty(want), c20DropEmpty(got)
 		problem := ""
 		switch {
 		case pan != nil:
@@ -384,6 +388,16 @@ func c20MaxPending(input string) int {
 
 // c20RefSplit is the reference meaning of a typed text (line breaks already replaced by blanks): statements end
 // at semicolons outside quotes; what follows the last one is still pending and not handed over.
+func c20DropEmpty(stmts []string) []string {
+	var out []string
+	for _, s := range stmts {
+		if strings.TrimSpace(s) != ";" {
+			out = append(out, s)
+		}
+	}
+	return out
+}
+
 func c20RefSplit(text string) []string {
 	var out []string
 	var cur strings.Builder
